@@ -2,6 +2,7 @@
 //! one Net) against the real stack and applies the oracles.
 
 use std::cell::RefCell;
+use std::future::Future;
 use std::collections::{BTreeMap, BTreeSet};
 use std::io::ErrorKind;
 use std::net::{IpAddr, SocketAddr};
@@ -77,6 +78,7 @@ struct Ep {
     dst: SocketAddr,
     laddr: SocketAddr,
     conn: Option<(Rc<RefCell<ConnSlot>>, Rc<Notify>)>,
+    gate: Option<Rc<Notify>>,
     outcome: Option<ConnOutcome>,
     cstream: Option<Scoped<TcpStream>>,
     c_local: Option<SocketAddr>,
@@ -100,6 +102,9 @@ pub struct Sim {
     listener: Option<(Rc<Scoped<TcpListener>>, SocketAddr)>,
     accept_task: Option<(Rc<RefCell<AcceptSlot>>, Rc<Notify>)>,
     udp_keep: Vec<(usize, Scoped<UdpSocket>)>,
+    /// server-side handle of a connection both ends closed, still held by
+    /// the application (episode flag `hold`)
+    held: Option<Scoped<TcpStream>>,
     pub out: Outcome,
     seed: u64,
     /// packets that folded back inside a kernel (loopback tap)
@@ -116,6 +121,7 @@ impl Sim {
             .default_backlog(cfg.backlog)
             .retx_threshold(cfg.thr)
             .retx_max(cfg.max);
+        let kc = if cfg.rcap > 0 { kc.recv_buf_cap(cfg.rcap) } else { kc };
         let hosts: Vec<Vec<IpAddr>> = match cfg.layout {
             Layout::V4 => vec![vec![ip("10.0.0.1")], vec![ip("10.0.1.1"), ip("10.0.1.2")]],
             Layout::V6 => vec![vec![ip("fd00::1")], vec![ip("fd00::2"), ip("fd00::3")]],
@@ -138,6 +144,7 @@ impl Sim {
             listener: None,
             accept_task: None,
             udp_keep: vec![],
+            held: None,
             out: Outcome::default(),
             seed,
         };
@@ -331,18 +338,33 @@ impl Sim {
         self.out.count("listener_drops", 1);
     }
 
-    fn do_connect(&mut self, ep: &mut Ep) {
+    fn do_connect(&mut self, ep: &mut Ep, lazy: bool) {
         if ep.conn.is_some() {
             return;
         }
         let slot = Rc::new(RefCell::new(ConnSlot::default()));
         let cancel = Rc::new(Notify::new());
-        let (s2, c2, dst) = (slot.clone(), cancel.clone(), ep.dst);
+        let gate = Rc::new(Notify::new());
+        let (s2, c2, g2, dst) = (slot.clone(), cancel.clone(), gate.clone(), ep.dst);
         self.world.spawn(self.ch, async move {
             tokio::select! {
                 biased;
                 _ = c2.notified() => { s2.borrow_mut().done = Some(ConnOutcome::Cancelled); }
-                r = TcpStream::connect(dst) => match r {
+                r = async {
+                    let mut fut = Box::pin(TcpStream::connect(dst));
+                    // first poll sends the SYN; a lazy application then
+                    // looks at the future again only when told to
+                    let first = std::future::poll_fn(|cx| std::task::Poll::Ready(fut.as_mut().poll(cx))).await;
+                    match first {
+                        std::task::Poll::Ready(r) => r,
+                        std::task::Poll::Pending => {
+                            if lazy {
+                                g2.notified().await;
+                            }
+                            fut.await
+                        }
+                    }
+                } => match r {
                     Ok(st) => {
                         let mut b = s2.borrow_mut();
                         b.local = st.local_addr().ok();
@@ -355,10 +377,22 @@ impl Sim {
             }
         });
         ep.conn = Some((slot, cancel));
+        ep.gate = Some(gate);
         self.world.settle();
         self.out.count("connects_started", 1);
+        if lazy {
+            self.out.count("connects_lazy", 1);
+        }
         ep.attempt_local = self.find_attempt_local(ep);
         self.collect(ep);
+    }
+
+    fn do_poll(&mut self, ep: &mut Ep) {
+        if let Some(g) = ep.gate.as_ref() {
+            g.notify_one();
+            self.world.settle();
+            self.collect(ep);
+        }
     }
 
     fn do_accept(&mut self) {
@@ -617,6 +651,7 @@ impl Sim {
             dst: self.dst_addr(e),
             laddr: self.listen_addr(e),
             conn: None,
+            gate: None,
             outcome: None,
             cstream: None,
             c_local: None,
@@ -644,6 +679,7 @@ impl Sim {
         self.out.count("episodes", 1);
         let r = self.episode_body(&mut ep, e);
         // Whatever happened, release the episode's sockets in scope.
+        self.held = None;
         ep.cstream = None;
         for a in ep.accepts.iter_mut() {
             a.stream = None;
@@ -663,7 +699,7 @@ impl Sim {
                             self.steer(49152 + 7 * k as u16);
                         }
                     }
-                    self.do_connect(ep)
+                    self.do_connect(ep, e.lazy)
                 }
                 Step::Cancel => {
                     if let Some((slot, cancel)) = ep.conn.as_ref() {
@@ -693,6 +729,13 @@ impl Sim {
                     }
                 }
                 Step::Round(fc, fs) => self.do_round(ep, *fc, *fs),
+                Step::Poll => {
+                    if ep.outcome.is_none() {
+                        let (c, s) = self.states(ep);
+                        self.out.saw("lazy_poll_at_pair", format!("{c}/{s}"));
+                    }
+                    self.do_poll(ep)
+                }
             }
             let is_action = !matches!(st, Step::Round(..));
             self.observe(ep, &code, is_action);
@@ -703,6 +746,9 @@ impl Sim {
     fn close_out(&mut self, ep: &mut Ep, e: &Episode) -> Res {
         let in_env = ep.faults + 1 <= self.cfg.max;
         // 1. a pending connect must resolve within R clean rounds
+        if ep.conn.is_some() && ep.outcome.is_none() {
+            self.do_poll(ep);
+        }
         if ep.conn.is_some() && ep.outcome.is_none() {
             for _ in 0..self.cfg.r() {
                 self.do_round(ep, Fate::Deliver, Fate::Deliver);
@@ -772,17 +818,20 @@ impl Sim {
         }
         // 3. close both sides
         self.observe(ep, "closeout", true);
-        if e.server_first {
-            for a in ep.accepts.iter_mut() {
-                a.stream = None;
-            }
+        let hold_it = e.hold && ep.accepts.first().map(|a| a.stream.is_some()).unwrap_or(false);
+        if !e.server_first {
             ep.cstream = None;
-        } else {
-            ep.cstream = None;
-            for a in ep.accepts.iter_mut() {
-                a.stream = None;
-            }
         }
+        if hold_it {
+            // the server closes (shutdown) but keeps its handle
+            self.shutdown(ep, false);
+            self.held = ep.accepts[0].stream.take();
+            self.out.count("closed_handles_held", 1);
+        }
+        for a in ep.accepts.iter_mut() {
+            a.stream = None;
+        }
+        ep.cstream = None;
         if !e.keep {
             self.do_drop_listener(ep);
         }
@@ -854,7 +903,7 @@ impl Sim {
             }
             self.out.count("rebind_probes", 1);
         }
-        if self.listener.is_none() {
+        if self.listener.is_none() && self.held.is_none() {
             self.world.cur(self.sh);
             match now(TcpListener::bind(ep.laddr)) {
                 Ok(l) => drop(l),
@@ -869,10 +918,16 @@ impl Sim {
             self.out.count("rebind_probes", 1);
         }
         // 8. reconnect on the same 4-tuple
-        if e.reuse {
+        if e.reuse || self.held.is_some() {
             if let Some(al) = ep.attempt_local {
                 self.reuse_probe(ep, al)?;
             }
+        }
+        if self.held.take().is_some() {
+            for _ in 0..self.cfg.q() {
+                self.do_round(ep, Fate::Deliver, Fate::Deliver);
+            }
+            self.checkpoint(ep.idx, "leak-after-hold")?;
         }
         Ok(())
     }
@@ -887,14 +942,19 @@ impl Sim {
                 want += 1;
             }
             let c = turmoil_net::verif::host_counts_by_id(self.world.id(h));
+            // a closed connection whose handle the application still holds
+            // keeps its socket entry (and binding) until the handle is
+            // dropped; whether its 4-tuple stays indexed is not observable
+            // here - the reuse probe decides whether it swallows anything
+            let hh = usize::from(self.held.is_some() && h == self.sh);
             let mut which = String::new();
-            if c.sockets != want {
+            if c.sockets != want + hh {
                 which.push('s');
             }
-            if c.bindings != want || c.binding_fds != want {
+            if c.bindings < want || c.bindings > want + hh || c.binding_fds != want + hh {
                 which.push('b');
             }
-            if c.connections != 0 {
+            if c.connections > hh {
                 which.push('c');
             }
             let side = if self.ch == self.sh {
@@ -916,6 +976,35 @@ impl Sim {
                 res.sort();
                 res.dedup();
                 let residue = if res.is_empty() { "hidden".to_string() } else { res.join("+") };
+                // Diagnosis: after Q fault-free rounds a socket that still has
+                // unsent / unacknowledged bytes queued is not retransmitting
+                // (it would have timed out by now): it faces a closed window
+                // that nothing will ever reopen. One root cause, one identity.
+                let mut stalled: Vec<String> = vec![];
+                for hh in 0..self.world.hosts.len() {
+                    for e in turmoil_net::netstat(self.world.hosts[hh].addrs[0]).entries {
+                        // queued bytes, or a FIN of its own that is neither
+                        // acknowledged nor given up (FinWait1/Closing/LastAck
+                        // retransmit and time out within Q rounds unless the
+                        // FIN is held back by a closed window)
+                        let fin_stuck = matches!(e.state, Some(NetstatState::FinWait1) | Some(NetstatState::Closing) | Some(NetstatState::LastAck));
+                        if e.proto == Proto::Tcp && e.state != Some(NetstatState::Listen) && (e.send_q > 0 || fin_stuck) {
+                            stalled.push(format!("{:?} send-q {}", e.state.unwrap(), e.send_q));
+                        }
+                    }
+                }
+                // only where a closed window is possible at all: the
+                // configurations with a tiny receive buffer
+                if !stalled.is_empty() && self.cfg.rcap > 0 {
+                    return Err(self.complaint(
+                        idx,
+                        "diag:orphan-stalled-on-zero-window",
+                        format!(
+                            "after {} fault-free rounds with everything dropped on both sides a socket still holds bytes or a FIN it can never send ({}): the peer's window is closed and is never probed; the {side} host has sockets={} bindings={} connections={}, model expects {want}/{want}/0 (netstat residue {residue})",
+                            self.cfg.q(), stalled.join(", "), c.sockets, c.bindings, c.connections
+                        ),
+                    ));
+                }
                 return Err(self.complaint(
                     idx,
                     &format!("{class}:{side}:{which}:{residue}"),
@@ -944,6 +1033,12 @@ impl Sim {
 
     fn reuse_probe(&mut self, ep: &mut Ep, al: SocketAddr) -> Res {
         self.out.count("reuse_probes", 1);
+        if self.listener.is_none() && self.held.is_some() {
+            // the held handle still owns the listener's address (AddrInUse
+            // is correct): nothing can listen there, release it first
+            self.held = None;
+            self.out.count("hold_without_listener_released", 1);
+        }
         let temp_listener = self.listener.is_none();
         self.do_listen(ep)?;
         self.steer(al.port());
@@ -952,6 +1047,7 @@ impl Sim {
             dst: ep.dst,
             laddr: ep.laddr,
             conn: None,
+            gate: None,
             outcome: None,
             cstream: None,
             c_local: None,
@@ -973,6 +1069,9 @@ impl Sim {
             a.stream = None;
         }
         r?;
+        if self.held.take().is_some() {
+            self.out.count("reuse_with_closed_handle_held", 1);
+        }
         if temp_listener {
             self.do_drop_listener(&mut p);
         }
@@ -983,7 +1082,7 @@ impl Sim {
     }
 
     fn reuse_body(&mut self, p: &mut Ep, al: SocketAddr) -> Res {
-        self.do_connect(p);
+        self.do_connect(p, false);
         for _ in 0..self.cfg.r() {
             self.do_round(p, Fate::Deliver, Fate::Deliver);
             if p.outcome.is_some() {
@@ -1005,7 +1104,9 @@ impl Sim {
         } else {
             self.out.count("reuse_port_miss", 1);
         }
-        self.write(p, true, 24)?;
+        // one receive buffer's worth at most
+        let n: u32 = if self.cfg.rcap > 0 { self.cfg.rcap.min(24) as u32 } else { 24 };
+        self.write(p, true, n)?;
         for _ in 0..3 {
             self.do_round(p, Fate::Deliver, Fate::Deliver);
             self.try_accept_drain(p);
@@ -1023,17 +1124,17 @@ impl Sim {
             ));
         }
         self.read(p, false)?;
-        self.write(p, false, 24)?;
+        self.write(p, false, n)?;
         for _ in 0..3 {
             self.do_round(p, Fate::Deliver, Fate::Deliver);
         }
         self.read(p, true)?;
-        if p.accepts[0].read != 24 || p.c_read != 24 {
+        if p.accepts[0].read != n as u64 || p.c_read != n as u64 {
             return Err(self.complaint(
                 p.idx,
                 "reuse-transfer-failed",
                 format!(
-                    "on the reused 4-tuple the server read {} of 24 and the client {} of 24 bytes",
+                    "on the reused 4-tuple the server read {} and the client {} of {n} bytes",
                     p.accepts[0].read, p.c_read
                 ),
             ));
@@ -1050,6 +1151,7 @@ impl Sim {
                 drop(s)
             }
         }
+        self.held = None;
         self.udp_keep.clear();
         turmoil_net::verif::set_loopback_tap(None);
     }
